@@ -87,9 +87,9 @@ func (p *copyProp) Rule() string {
 
 func (p *copyProp) Components() map[string][]string {
 	return map[string][]string{
-		"real":        {"oras.Copy/CopyGraph/ExtendedCopy/ExtendedCopyGraph", "internal/syncutil", "internal/status", "internal/cas", "content/memory", "content/oci (real tmpfs I/O)", "content/file", "golang.org/x/sync errgroup+semaphore (vendored copy, instrumented)", "context", "io.Pipe"},
+		"real":        {"oras.Copy/CopyGraph/ExtendedCopy/ExtendedCopyGraph", "internal/syncutil", "internal/status", "internal/cas", "content/memory", "content/oci (real tmpfs I/O)", "content/file", "registry/remote Repository (as source and destination, over the simulated registry)", "golang.org/x/sync errgroup+semaphore (vendored copy, instrumented)", "context", "io.Pipe"},
 		"substituted": {"sync.Mutex/RWMutex/WaitGroup/Once (channel-based, scheduler-controlled)", "os (pass-through with op counting)", "select choice and map iteration order (tape-driven)"},
-		"stub":        {"fault-injecting wrappers around source and destination stores"},
+		"stub":        {"fault-injecting wrappers around source and destination stores", "simulated OCI registry behind http.RoundTripper (reference model + request validator + response faults)"},
 	}
 }
 
@@ -98,7 +98,8 @@ func (p *copyProp) Assumptions() []string {
 		"instrumentation rules preserve semantics (each is a refinement of behaviour Go leaves unspecified)",
 		"testing/synctest quiescence detection is sound",
 		"ground truth links come from the generator's own edge list, never from content.Successors",
-		"remote source/destination pairings are exercised under C13/C14, not here",
+		"sha512-addressed content is not combined with registries lacking the Referrers API (known finding recorded under C13)",
+		"a competing writer (C04 'raced' fault) only stores nodes the copy itself is about to push, so it never breaks link closure on its own",
 	}
 }
 
